@@ -270,6 +270,50 @@ def threaded_equality(st, only=None, bound2=False, shard=None):
     st.outcome("threaded-equality")
 
 
+def sharing_documents(st):
+    """One class shared between equal object schemas of a document: each occurrence still means what it means alone."""
+    from statham.schema.parser import parse_element
+
+    items = [
+        {"type": "object", "title": "Item", "properties": {"n": {"type": "integer"}}},
+        {"type": "object", "title": "Item", "properties": {"n": {"type": "integer", "default": 0}}, "required": ["m"]},
+        {"type": "object", "title": "Item"},
+    ]
+    decorations = [
+        {"allOf": [{}], "default": {"n": 1}}, {"anyOf": [True], "default": {}}, {"oneOf": [{}], "allOf": [True], "default": None},
+        {"default": {"n": 2}}, {"description": "second occurrence"}, {"allOf": [{"minProperties": 0}], "default": {"n": 3}}, {"not": False, "default": 5},
+    ]
+    probes = [NotPassed(), {}, {"n": 1}, {"n": "x"}, {"m": 1}, {"m": 1, "n": 2}, 5, None]
+    for item in items:
+        alone = parse_element(copy.deepcopy(item))
+        vec_alone = [impl.do_call(alone, v)[0] for v in probes]
+        js_alone = strip_titles(serialize_json(alone))
+        for deco in decorations:
+            for order in ("plain-first", "plain-last"):
+                props = {"plain": copy.deepcopy(item), "filled": {**copy.deepcopy(item), **copy.deepcopy(deco)}}
+                if order == "plain-last":
+                    props = dict(reversed(list(props.items())))
+                doc = {"type": "object", "title": "Outer", "required": ["plain"], "properties": props}
+                st.add("states")
+                st.add("transitions")
+                st.add("evaluations")
+                st.add("traces")
+                st.add("nontrivial")
+                case = {"item": item, "decoration": deco, "order": order}
+                try:
+                    outer = parse_element(copy.deepcopy(doc))
+                    plain = next(p.element for p in outer.properties.values() if p.source == "plain")
+                except Exception as exc:
+                    st.violation("sharing:parse-raised:%s" % type(exc).__name__, "%r" % (exc,), case)
+                    continue
+                vec = [impl.do_call(plain, v)[0] for v in probes]
+                if not (plain == alone) or vec != vec_alone or strip_titles(serialize_json(plain)) != js_alone:
+                    st.violation("sharing-changes-meaning", "the plain occurrence of %s next to an equal one decorated with %s (%s) is %r; alone it is %r" % (json.dumps(item)[:120], json.dumps(deco), order, plain, alone), case)
+                if impl.do_call(outer, {})[0] == impl.ACCEPT:
+                    st.violation("sharing-changes-meaning:required", "the plain occurrence is required, yet the outer model accepts {} (%s, %s)" % (json.dumps(deco), order), case)
+    st.outcome("sharing-documents")
+
+
 def plan(tier, seed):
     n = len(pool())
     chunk = 8
@@ -277,7 +321,7 @@ def plan(tier, seed):
     items = [("threads", c, False, (s0, r, 8)) for c, k in nthreads.items() for s0 in range(k) for r in range(8)]
     if tier == "thorough":
         items += [("threads", "unequal-same-direction", True, (s0, r, 32)) for s0 in range(2) for r in range(32)]
-    items += [("rows", lo, min(n, lo + chunk)) for lo in range(0, n, chunk)]
+    items += [("rows", lo, min(n, lo + chunk)) for lo in range(0, n, chunk)] + [("sharing",)]
     return {"items": items, "chunksize": 2, "meta": {"pool": n, "ordered_pairs": n * n, "values": len(VALUES), "exhaustive": True}}
 
 
@@ -285,6 +329,9 @@ def work(item):
     st = runner.Stats()
     if item[0] == "threads":
         threaded_equality(st, item[1], item[2], item[3])
+        return st
+    if item[0] == "sharing":
+        sharing_documents(st)
         return st
     p = pool()
     n = len(p)
